@@ -21,6 +21,7 @@ func init() {
 	reg("C20", "C20.R4", "E7", "ban value and maintenance cap are unbanIterations x the source's own threshold (the one its counter decays by)", 2, ruleBanCapAgreement)
 	reg("C20", "C20.R3", "E2", "antispam gating in In and the constant verdicts inside IsSpam", 1, ruleAntispamGating)
 	reg("C20", "C20.R5", "E7", "antispam exceptions use match rules: a value is rejected by length only when shorter than the shortest configured value (same rule as C17.R5)", 2, ruleMatchRuleLengthGate)
+	reg("C20", "C20.R6", "E2", "antispam exceptions use match rules: event data is lower-cased whenever the rule is case-insensitive (same rule as C17.R6)", 2, ruleMatchRuleCaseFold)
 }
 
 // reasonOf classifies a guard literal of In/streamEvent into a refusal reason.
@@ -306,6 +307,7 @@ func ruleAntispamGating(c *Ctx, r *Rule) {
 		return
 	}
 	r.Inst(1)
+	c.firstMatchingRuleDecides(r, isSpam)
 	for _, ci := range callsIn(in) {
 		if calleeFunc(ci) != isSpam {
 			continue
@@ -663,4 +665,50 @@ func (c *Ctx) decoderErr(v ssa.Value, d int) bool {
 		return c.decoderErr(x.Tuple, d+1)
 	}
 	return false
+}
+
+// firstMatchingRuleDecides: the rules of the antispam are an ordered list and the FIRST rule whose
+// condition holds gives the threshold (documented). Once a rule's check is true, control must leave the
+// loop: if it can come back to the check, a later matching rule overrides the first one.
+func (c *Ctx) firstMatchingRuleDecides(r *Rule, isSpam *ssa.Function) {
+	var checks []ssa.CallInstruction
+	for _, ci := range callsIn(isSpam) {
+		cc := ci.Common()
+		isCheck := cc.IsInvoke() && cc.Method.Name() == "Check"
+		if f := cc.StaticCallee(); f != nil && f.Name() == "Check" && c.pkgOf(f) == "pipeline/doif" {
+			isCheck = true
+		}
+		if isCheck {
+			if cyc, _ := c.pathExists(isSpam, ci, func(in ssa.Instruction) bool { return in == ssa.Instruction(ci) }, nil); cyc {
+				checks = append(checks, ci)
+			}
+		}
+	}
+	r.Ob(len(checks) == 1, c.fnName(isSpam)+"|rule-loop", isSpam.Pos(), fmt.Sprintf("one loop evaluates the rules' conditions in order (found %d)", len(checks)))
+	if len(checks) != 1 {
+		return
+	}
+	chk := checks[0]
+	val, _ := chk.(ssa.Value)
+	back := false
+	var at ssa.Instruction
+	for _, b := range isSpam.Blocks {
+		matched := false
+		for _, l := range unitLits(c.guards(isSpam)[b]) {
+			if l.v == val && l.pol {
+				matched = true
+			}
+		}
+		if !matched || len(b.Instrs) == 0 {
+			continue
+		}
+		if again, _ := c.pathExists(isSpam, b.Instrs[0], func(in ssa.Instruction) bool { return in == ssa.Instruction(chk) }, nil); again {
+			back, at = true, b.Instrs[0]
+		}
+	}
+	pos := chk.Pos()
+	if at != nil && at.Pos() != token.NoPos {
+		pos = at.Pos()
+	}
+	r.Ob(!back, c.fnName(isSpam)+"|first-match-leaves-loop", pos, "after a rule's condition held, the loop over the rules is left (the first matching rule decides; a path back to the next rule lets a later rule override it)")
 }
